@@ -121,7 +121,7 @@ def crate_fns(js, crate):
     return res
 
 
-def run_unit(unit, repo_root, build_dir, rlimit=30, timeout=900, canary=True, tag=''):
+def run_unit(unit, repo_root, build_dir, rlimit=30, timeout=900, canary=True, tag='', restrict=()):
     tpl = os.path.join(VERIF, 'units', unit + '.vt.rs')
     os.makedirs(build_dir, exist_ok=True)
     out = {'unit': unit, 'status': 'ok', 'functions': {}, 'failures': [], 'items': [], 'canary': {'checked': 0, 'vacuous': []},
@@ -130,7 +130,7 @@ def run_unit(unit, repo_root, build_dir, rlimit=30, timeout=900, canary=True, ta
     crate = 'u_' + unit + tag
     gen = os.path.join(build_dir, crate + '.rs')
     try:
-        text, info = vt.process_template(tpl, repo_root, [os.path.join(VERIF, 'prelude')])
+        text, info = vt.process_template(tpl, repo_root, [os.path.join(VERIF, 'prelude')], tuple(restrict))
     except vt.ExtractError as ex:
         out['status'] = 'tool-error'
         out['tool_error'] = 'extract: %s' % ex
